@@ -521,3 +521,22 @@ Example ex_kmon :
   is_some (kmon_run [EvNow 0; EvCtl CDel (Cl 4) 0; EvIntroRet 4 true; EvDeferred (Cl 4)]) = true.
 Proof. vm_compute. auto. Qed.
 Example ex_demo_accepted_text : accepts_text demo_log = true. Proof. vm_compute. reflexivity. Qed.
+
+(* ---------- round 6, non-vacuity: MANY clients in the closing set in one round ---------- *)
+(* The closing set of the model is a list without a bound (ServerLoopModel.closing), so every theorem above already speaks about any
+   number of clients whose read/write failed in the same round.  Twelve clients (more than the 8 buckets of Server's set) fail their
+   read one after the other; the closing set holds all twelve, oldest first; the onClosed of the oldest removes clients 1..9 (oldest
+   first) while they wait in the set; onClosed is delivered to 0, 10 and 11 only, nothing is left in the set, the log is accepted. *)
+Definition mc_ids : list Z := [0; 1; 2; 3; 4; 5; 6; 7; 8; 9; 10; 11].
+Definition mc_ops1 := map (fun i => OAct (APair i)) mc_ids ++ [ORecvq (map (fun _ => REof) mc_ids)] ++ map (fun i => OAct (ARead i)) mc_ids.
+Definition mc_ops := mc_ops1 ++
+  [OOn (mkSe (Cl 0) (SCb KClosed) 0 false (map ARmClient [1; 2; 3; 4; 5; 6; 7; 8; 9]));
+   OOn (mkSe (Cl 11) (SCb KClosed) 0 false [ARmClient 11]); ORun [mkEp 0 []]].
+Example ex_many_closing_clients_in_one_round :
+  closing (steps 50 init mc_ops1) = mc_ids /\
+  (let s := steps 50 init mc_ops in
+   (stuck s, closing s, map fst (clients s),
+    flat_map (fun x => match x with EvCb (Cl i) KClosed _ => [i] | _ => [] end) (rev (trace s)),
+    length (filter (fun x => match x with EvRemoved (Cl _) => true | _ => false end) (trace s)),
+    accepts_text (trace s)) = (false, [], [0; 10], [0; 10; 11], 10%nat, true)).
+Proof. split; vm_compute; reflexivity. Qed.
